@@ -52,6 +52,7 @@ type Clause struct {
 	NParams int           // number of parameters of the synthetic function taken from the callee (callsite clauses)
 	ExtraNames []string
 	ExtraTypes []string
+	OnlyProps  []string // clause counts only for these properties (ensures[C04] ...)
 	RecvOnly   bool // rule clause: the synthetic function takes only the receiver
 }
 
@@ -387,6 +388,11 @@ func parseBlocks(fset *token.FileSet, path string, src []byte, pkgPath string) (
 				continue
 			}
 			word, rest := splitWord(body)
+			var onlyProps []string
+			if i := strings.Index(word, "["); i > 0 && strings.HasSuffix(word, "]") {
+				onlyProps = strings.Split(word[i+1:len(word)-1], ",")
+				word = word[:i]
+			}
 			if word == "rule" {
 				flush()
 				cur = &Block{Header: "func " + rest + " __rule()", Pkg: pkgPath, File: path, Line: line, Loops: map[int]*LoopSpec{}, Flags: map[string]bool{}, IsRule: true, Exclude: map[string]bool{}}
@@ -422,7 +428,7 @@ func parseBlocks(fset *token.FileSet, path string, src []byte, pkgPath string) (
 				if err != nil {
 					return nil, fmt.Errorf("%s:%d: %v", path, line, err)
 				}
-				return &Clause{Kind: kind, Text: expr, GoExpr: g, Loop: loop, File: path, Line: line}, nil
+				return &Clause{Kind: kind, Text: expr, GoExpr: g, Loop: loop, File: path, Line: line, OnlyProps: onlyProps}, nil
 			}
 			switch word {
 			case "fuel":
